@@ -580,6 +580,18 @@ func VH_C05_Opcode() {
 		return
 	}
 	vassume(vrefHandled(op))
+	if vparam("ALIAS", 0) == 1 {
+		// the state a copying opcode (DUP, OVER, PICK, TUCK ...) leaves behind: one operand (the top
+		// one or the one below it) shares its storage with the first item below the operands
+		n := len(th.dstack.stk)
+		which := n - 1
+		if varity(op) >= 2 && vnondetBool("alias-second") {
+			which = n - 2
+		}
+		if j := n - 1 - varity(op); j >= 0 && j < which {
+			th.dstack.stk[which] = th.dstack.stk[j]
+		}
+	}
 	st := &refStacks{}
 	for _, it := range th.dstack.stk {
 		st.d = append(st.d, vcopy(it))
